@@ -26,6 +26,25 @@ theorem account_sum_exact (txs : List Transaction) (a c : Bytes) :
   generalize List.filterMap (contrib a c) (List.map absPosting (allPostings txs)) = l
   cases l <;> rfl
 
+/-- The lines of the "Balance" section of an account hover: every line shows a commodity
+    explicitly posted to the account with a decimal denoting the exact sum; every such commodity
+    has a line; an account with no explicit amounts has no line. -/
+theorem account_lines_exact (txs : List Transaction) (a : Bytes) :
+    (∀ c v, (c, v) ∈ accountBalanceLines (accountBalances txs) a →
+        accountSum? (txs.map absTx) a c = some (decToRat v)) ∧
+    (∀ c, accountSum? (txs.map absTx) a c ≠ none →
+        ∃ v, (c, v) ∈ accountBalanceLines (accountBalances txs) a) := by
+  constructor
+  · intro c v h
+    rw [mem_lines] at h
+    have := lookup_of_mem _ _ _ (nodup_accountBalances txs) h
+    rw [← account_sum_exact, this]; rfl
+  · intro c h
+    rw [← account_sum_exact] at h
+    cases hl : balLookup (accountBalances txs) (a, c) with
+    | none => simp [hl] at h
+    | some v => exact ⟨v, (mem_lines _ _ _ _).mpr (mem_of_lookup _ _ _ hl)⟩
+
 /-! ### Counts -/
 
 /-- For transaction lists of any length: the posting count is the number of postings to the
@@ -270,6 +289,132 @@ theorem amount_hover_exact (ws perUri : Option Resolved) (doc : Journal) (p : Ls
   obtain ⟨tx, htx, po, hpo, h1, h2, _, h4⟩ := findElement_amount h
   exact ⟨tx, htx, po, hpo, h1, h2, h4⟩
 
+/-! ### Account and payee hover: which element, which figures -/
+
+theorem findTag_not_account {tags : List Tag} {p : LspPos} {rng : Rng} {acc : Account} :
+    findTagAtPosition tags p ≠ some (.account rng acc) := by
+  induction tags with
+  | nil => simp [findTagAtPosition]
+  | cons t ts ih =>
+    unfold findTagAtPosition
+    split
+    · unfold tagElement; split <;> simp
+    · exact ih
+
+theorem findInComments_not_account {cs : List Comment} {p : LspPos} {rng : Rng} {acc : Account} :
+    findInComments cs p ≠ some (.account rng acc) := by
+  induction cs with
+  | nil => simp [findInComments]
+  | cons x xs ih =>
+    unfold findInComments
+    split
+    · next e he => intro h; cases h; exact findTag_not_account he
+    · exact ih
+
+theorem findInPostings_account {ps : List Posting} {p : LspPos} {rng : Rng} {acc : Account}
+    (h : findInPostings ps p = some (.account rng acc)) : ∃ po ∈ ps, po.account = acc := by
+  induction ps with
+  | nil => simp [findInPostings] at h
+  | cons po ps ih =>
+    unfold findInPostings at h
+    split at h
+    · cases h; exact ⟨po, List.mem_cons_self, rfl⟩
+    · split at h
+      · next e he =>
+        cases h
+        obtain ⟨_, _, _, e⟩ := amountElement_kind he
+        cases e
+      · split at h
+        · next e he => cases h; exact absurd he findTag_not_account
+        · obtain ⟨q, hq, r⟩ := ih h
+          exact ⟨q, List.mem_cons_of_mem _ hq, r⟩
+
+theorem findElement_account {txs : List Transaction} {p : LspPos} {rng : Rng} {acc : Account}
+    (h : findElement txs p = some (.account rng acc)) :
+    ∃ tx ∈ txs, ∃ po ∈ tx.postings, po.account = acc := by
+  induction txs with
+  | nil => simp [findElement] at h
+  | cons tx txs ih =>
+    unfold findElement at h
+    split at h
+    · next e he =>
+      cases h
+      unfold findInTransaction at he
+      split at he
+      · cases he
+      · split at he
+        · next e' he' =>
+          cases he
+          unfold payeeElement at he'
+          split at he'
+          · split at he' <;> cases he'
+          · cases he'
+        · split at he
+          · next e' he' => cases he; exact absurd he' findInComments_not_account
+          · obtain ⟨po, hpo, r⟩ := findInPostings_account he
+            exact ⟨tx, List.mem_cons_self, po, hpo, r⟩
+    · obtain ⟨t, ht, r⟩ := ih h
+      exact ⟨t, List.mem_cons_of_mem _ ht, r⟩
+
+/-- Guard of the known finding orphan-file-not-counted, positively: when the transactions of
+    the requesting document are among those Hover aggregates over (the file is the root or a
+    member of the tree, and in sync), an account hover counts at least the posting under the
+    cursor. -/
+theorem current_file_counted_partial (ws perUri : Option Resolved) (doc : Journal) (p : LspPos)
+    (rng : Rng) (acc : Account)
+    (h : findElement doc.transactions p = some (.account rng acc))
+    (hsub : ∀ tx ∈ doc.transactions, tx ∈ hoverTransactions ws perUri doc) :
+    (hover ws perUri doc p).map (·.figures) =
+      some (.account acc.name
+        (accountBalanceLines (accountBalances (hoverTransactions ws perUri doc)) acc.name)
+        (countPostings acc.name (hoverTransactions ws perUri doc))) ∧
+    1 ≤ countPostings acc.name (hoverTransactions ws perUri doc) := by
+  refine ⟨by simp [hover, h, buildFigures], ?_⟩
+  obtain ⟨tx, htx, po, hpo, hacc⟩ := findElement_account h
+  rw [countPostings_eq]
+  apply List.countP_pos_iff.mpr
+  refine ⟨po, ?_, by simp [hacc]⟩
+  simp only [allPostings, List.mem_flatMap]
+  exact ⟨tx, hsub tx htx, hpo⟩
+
+/-- The column where `estimatePayeeRange` expects the payee. -/
+def payeeStart (tx : Transaction) : Nat :=
+  tx.date.range.stop.col + 1 + (if tx.status != .none then 2 else 0)
+
+/-- Guard of the known finding payee-range-estimated, positively: if the payee really starts
+    one column after the date (three after a status mark), every cursor from its first
+    character to just past its last one, on the date's line, finds the payee, and Hover shows
+    the number of transactions with that payee. -/
+theorem payee_found_partial (ws perUri : Option Resolved) (doc : Journal) (tx : Transaction)
+    (rest : List Transaction) (p : LspPos)
+    (hdoc : doc.transactions = tx :: rest)
+    (hne : payeeOrDescription tx ≠ [])
+    (hdate : positionInRange p tx.date.range = false)
+    (hline : p.line + 1 = tx.date.range.start.line)
+    (hlo : payeeStart tx ≤ p.char + 1)
+    (hhi : p.char + 1 ≤ payeeStart tx + u16len (payeeOrDescription tx)) :
+    (hover ws perUri doc p).map (·.figures) =
+      some (.payee (payeeOrDescription tx)
+        (countPayee (payeeOrDescription tx) (hoverTransactions ws perUri doc))) := by
+  have hin : positionInRange p (estimatePayeeRange tx (payeeOrDescription tx)) = true := by
+    unfold payeeStart at hlo hhi
+    have h1 : ¬ (p.line + 1 < tx.date.range.start.line ∨ p.line + 1 > tx.date.range.start.line) := by omega
+    cases hs : (tx.status != Status.none)
+    · simp only [hs, Bool.false_eq_true, if_false] at hlo hhi
+      have h2 : ¬ (p.char + 1 < tx.date.range.stop.col + 1) := by omega
+      have h3 : ¬ (p.char + 1 > tx.date.range.stop.col + 1 + u16len (payeeOrDescription tx)) := by omega
+      simp [positionInRange, estimatePayeeRange, hs, h1, h2, h3]
+    · simp only [hs, if_true] at hlo hhi
+      have h2 : ¬ (p.char + 1 < tx.date.range.stop.col + 1 + 2) := by omega
+      have h3 : ¬ (p.char + 1 > tx.date.range.stop.col + 1 + 2 + u16len (payeeOrDescription tx)) := by omega
+      simp [positionInRange, estimatePayeeRange, hs, h1, h2, h3]
+  have hb : (payeeOrDescription tx != []) = true := by simpa using hne
+  have hf : findElement doc.transactions p =
+      some (.payee (estimatePayeeRange tx (payeeOrDescription tx)) (payeeOrDescription tx) tx) := by
+    rw [hdoc]
+    simp [findElement, findInTransaction, hdate, payeeElement, hb, hin]
+  simp [hover, hf, buildFigures]
+
 /-! ### Counterexamples (each reproduced against the real server by a witness in replays/C20) -/
 
 namespace Cex
@@ -306,6 +451,13 @@ def resolvedTruncated : Resolved := ⟨some (journal []), [(b, fileB)], [b]⟩
 def resolvedFull : Resolved := ⟨some (journal []), [(b, fileB), (c, fileC)], [b, c]⟩
 
 end Cex
+
+/-- The hypotheses of `payee_found_partial` are satisfiable (`2024-01-15 Shop`, cursor on `h`). -/
+example : ∃ tx : Transaction, ∃ p : LspPos, payeeOrDescription tx ≠ [] ∧
+    positionInRange p tx.date.range = false ∧ p.line + 1 = tx.date.range.start.line ∧
+    payeeStart tx ≤ p.char + 1 ∧ p.char + 1 ≤ payeeStart tx + u16len (payeeOrDescription tx) :=
+  ⟨{ Cex.tx 1 [] with description := [83, 104, 111, 112] }, ⟨0, 12⟩, by decide⟩
+
 
 open Cex in
 /-- A `FileOrder` that lists a file twice doubles that file's figures: 2 postings and 10 USD are
@@ -365,6 +517,7 @@ end HL.Props.C20Hover
   the ones above. -/
 namespace HL.Props.C20
 theorem hover_account_sum_exact : type_of% @HL.Props.C20Hover.account_sum_exact := @HL.Props.C20Hover.account_sum_exact
+theorem hover_account_lines_exact : type_of% @HL.Props.C20Hover.account_lines_exact := @HL.Props.C20Hover.account_lines_exact
 theorem hover_counts_exact : type_of% @HL.Props.C20Hover.counts_exact := @HL.Props.C20Hover.counts_exact
 theorem hover_payee_count_exact : type_of% @HL.Props.C20Hover.payee_count_exact := @HL.Props.C20Hover.payee_count_exact
 theorem hover_all_transactions_once : type_of% @HL.Props.C20Hover.all_transactions_once := @HL.Props.C20Hover.all_transactions_once
@@ -372,6 +525,8 @@ theorem hover_spec_perm : type_of% @HL.Props.C20Hover.spec_perm := @HL.Props.C20
 theorem hover_aggregates_exact_partial : type_of% @HL.Props.C20Hover.hover_aggregates_exact_partial := @HL.Props.C20Hover.hover_aggregates_exact_partial
 theorem hover_uses_whole_tree : type_of% @HL.Props.C20Hover.hover_uses_whole_tree := @HL.Props.C20Hover.hover_uses_whole_tree
 theorem hover_without_workspace : type_of% @HL.Props.C20Hover.hover_without_workspace := @HL.Props.C20Hover.hover_without_workspace
+theorem hover_current_file_counted_partial : type_of% @HL.Props.C20Hover.current_file_counted_partial := @HL.Props.C20Hover.current_file_counted_partial
+theorem hover_payee_found_partial : type_of% @HL.Props.C20Hover.payee_found_partial := @HL.Props.C20Hover.payee_found_partial
 theorem hover_amount_exact : type_of% @HL.Props.C20Hover.amount_hover_exact := @HL.Props.C20Hover.amount_hover_exact
 theorem hover_dup_include_doubled_counterexample : type_of% @HL.Props.C20Hover.dup_include_doubled_counterexample := @HL.Props.C20Hover.dup_include_doubled_counterexample
 theorem hover_truncated_tree_counterexample : type_of% @HL.Props.C20Hover.truncated_tree_counterexample := @HL.Props.C20Hover.truncated_tree_counterexample
